@@ -262,11 +262,19 @@ Proof.
   destruct (g_ftell w r s) as [[w1 pos] e]. reflexivity.
 Qed.
 
-Lemma fopen_err_none w q m w1 so e : g_fopen w q m = (w1, so, e) -> e <> 0 -> so = None.
+(* no fopen of the plan is "success with errno noise": the fallback reads `errval = errno` after fopen, so with such an entry a
+   rank would take the error path while it holds a stream (finding errno-noise:coll-fopen); the every-schedule theorems are
+   about plans without it *)
+Definition fopen_honest (pl : plan) : Prop := forall q k e s, pl q FOPEN k = Some (e, s) -> s <> NOISE.
+Lemma plan_ok_honest pl : plan_ok pl -> fopen_honest pl.
+Proof. intros H q k e s E. apply (H q FOPEN k e s E). Qed.
+
+Lemma fopen_err_none w q m w1 so e : fopen_honest (w_plan w) -> g_fopen w q m = (w1, so, e) -> e <> 0 -> so = None.
 Proof.
-  unfold g_fopen. destruct (take w q FOPEN) as [wa f]. destruct f as [[e0 sh0]|].
-  - intros E. inversion E. reflexivity.
-  - destruct (w_node wa); destruct m; intros E; inversion E; subst; try reflexivity; intros; exfalso; auto.
+  intros Hh. unfold g_fopen, take. cbn [w_node w_plan w_cnt w_fail w_open w_ledger].
+  destruct (w_plan w q FOPEN (w_cnt w q FOPEN)) as [[e0 sh0]|] eqn:Ef.
+  - rewrite (proj2 (Z.eqb_neq sh0 NOISE) (Hh _ _ _ _ Ef)). intros E. inversion E. reflexivity.
+  - unfold fopen_nat. cbn [w_node]. destruct (w_node w); destruct m; intros E; inversion E; subst; try reflexivity; intros; exfalso; auto.
 Qed.
 
 Notation clrun := (lrun fsys c12_local fs_eff).
@@ -302,446 +310,6 @@ Proof. reflexivity. Qed.
 Lemma tok_out_if e oc buf : (if negb (e =? 0) then e else -1) = tok_out (mkT e oc buf).
 Proof. unfold tok_out. cbn [t_errval]. destruct (e =? 0); reflexivity. Qed.
 
-Lemma transfer_lrun wr P q size a k wa st s w1 t : st q = Some s ->
-  turn_io wr wa q s size a = Some (w1, t) ->
-  clrun q (transfer_prog wr P q (a_off a) size (a_count a) (a_data a) k) (mkFS wa st)
-        (send_next P q (tok_out t) (fin_prog wr P q k (t_errval t) (t_ocount t) (t_buf t)))
-        (mkFS w1 (set_st st q None)).
-Proof.
-  intros Hs. unfold turn_io, transfer_prog, xfer_prog. destruct wr.
-  - destruct (g_fwrite wa q s size (a_count a) (a_data a)) as [[[w3 s3] oc] e3] eqn:E3.
-    destruct (g_fflush w3 q) as [[w4 r4] e4] eqn:E4.
-    destruct (r4 =? 0) eqn:B4; cbn [negb]; [|discriminate].
-    destruct (g_fclose w4 q) as [[w5 r5] e5] eqn:E5.
-    destruct (r5 =? 0) eqn:B5; cbn [negb]; [|discriminate].
-    intros G. inversion G; subst. clear G. cbn [t_errval t_ocount t_buf].
-    unfold io. eapply lrun_cons; [reflexivity|]. rewrite (eff_fwrite _ _ _ s) by exact Hs. rewrite E3. cbn [fst snd].
-    unfold r0, r1, rdata. cbn [nth skipn].
-    eapply lrun_cons; [reflexivity|]. rewrite eff_fflush, E4. cbn [fst snd nth]. rewrite B4. cbn [negb].
-    eapply lrun_cons; [reflexivity|]. rewrite eff_fclose, E5. cbn [fst snd nth]. rewrite B5. cbn [negb].
-    rewrite set_st_twice. rewrite (tok_out_if e3 oc []). apply lrun_nil.
-  - destruct (g_fseek wa q s (a_off a)) as [[[w2 s2] r2] e2] eqn:E2.
-    destruct (r2 =? 0) eqn:B2; [|discriminate].
-    destruct (g_fread w2 q s2 size (a_count a)) as [[[[w3 s3] oc] e3] buf] eqn:E3.
-    destruct (g_fflush w3 q) as [[w4 r4] e4] eqn:E4.
-    destruct (r4 =? 0) eqn:B4; cbn [negb]; [|discriminate].
-    destruct (g_fclose w4 q) as [[w5 r5] e5] eqn:E5.
-    destruct (r5 =? 0) eqn:B5; cbn [negb]; [|discriminate].
-    intros G. inversion G; subst. clear G. cbn [t_errval t_ocount t_buf].
-    unfold io. eapply lrun_cons; [reflexivity|]. rewrite (eff_fseek _ _ _ s) by exact Hs. rewrite E2. cbn [fst snd].
-    unfold r0 at 1. cbn [nth]. rewrite B2. cbn [negb].
-    eapply lrun_cons; [reflexivity|]. rewrite (eff_fread _ _ _ s2) by apply set_st_same. rewrite E3. cbn [fst snd].
-    unfold r0, r1, rdata. cbn [nth skipn].
-    eapply lrun_cons; [reflexivity|]. rewrite eff_fflush, E4. cbn [fst snd nth]. rewrite B4. cbn [negb].
-    eapply lrun_cons; [reflexivity|]. rewrite eff_fclose, E5. cbn [fst snd nth]. rewrite B5. cbn [negb].
-    rewrite !set_st_twice. rewrite (tok_out_if e3 oc buf). apply lrun_nil.
-Qed.
-
-Lemma turn_lrun wr P q size a k w st s0 tokv w1 t :
-  g_turn wr w s0 q tokv size a = Some (w1, t) -> (q = 0 -> st 0 = s0) ->
-  clrun q (body_prog wr P q (a_off a) size (a_count a) (a_data a) k tokv) (mkFS w st)
-        (send_next P q (tok_out t) (fin_prog wr P q k (t_errval t) (t_ocount t) (t_buf t)))
-        (mkFS w1 (if tokv =? -1 then set_st st q None else st)).
-Proof.
-  rewrite g_turn_eq. unfold body_prog. intros G H0.
-  destruct (tokv =? -1) eqn:Et.
-  - destruct (Z.eqb_spec q 0) as [->|Hq]; cbn [negb].
-    + cbn [negb Z.eqb] in G. destruct s0 as [s|]; [|discriminate].
-      apply transfer_lrun with (s := s); [apply H0; reflexivity|exact G].
-    + destruct (g_fopen w q (if wr then MAppend else MRead)) as [[wa so] e1] eqn:Eo.
-      unfold io. eapply lrun_cons; [reflexivity|]. unfold c_mode. rewrite eff_fopen, Eo. cbn [fst snd].
-      unfold r1 at 1. unfold r1 at 1. cbn [nth].
-      destruct (e1 =? 0) eqn:B1; cbn [negb] in *.
-      * destruct so as [s|]; [|discriminate].
-        replace (set_st st q None) with (set_st (set_st st q (Some s)) q None) by apply set_st_twice.
-        apply transfer_lrun with (s := s); [apply set_st_same|exact G].
-      * inversion G; subst. clear G. cbn [t_errval t_ocount t_buf].
-        assert (so = None) as -> by (eapply fopen_err_none; [exact Eo|intros ->; discriminate]).
-        unfold tok_out. cbn [t_errval]. rewrite B1. unfold r1. cbn [nth]. apply lrun_nil.
-  - destruct (0 <? tokv) eqn:Ep; [|discriminate].
-    inversion G; subst. clear G. cbn [t_errval t_ocount t_buf].
-    assert (tok_out (mkT tokv 0 []) = tokv) as ->.
-    { unfold tok_out. cbn [t_errval]. destruct (Z.eqb_spec tokv 0); [lia|reflexivity]. }
-    apply lrun_nil.
-Qed.
-
-(* ------------------------------------------------------------------ the rank-order schedule of one collective operation *)
-Definition cirun (P : Z) := irun fsys P c12_local fs_eff c12_creply c12_gives c12_ctok.
-Definition dturn : turn := mkT 0 0 [].
-Definition tn (ts : list turn) (r : Z) : turn := nth (Z.to_nat r) ts dturn.
-
-Lemma tn_app_lt ts l r : 0 <= r < len ts -> tn (ts ++ l) r = tn ts r.
-Proof. intros H. unfold tn, len in *. apply app_nth1. lia. Qed.
-Lemma tn_app_eq ts t l : tn (ts ++ t :: l) (len ts) = t.
-Proof. unfold tn, len. rewrite app_nth2 by lia. replace (Z.to_nat (Z.of_nat (length ts)) - length ts)%nat with 0%nat by lia. reflexivity. Qed.
-Lemma len_snoc {A} (l : list A) x : len (l ++ [x]) = len l + 1.
-Proof. unfold len. rewrite app_length. cbn [length]. lia. Qed.
-
-Section Witness.
-Variables (wr : bool) (P size : Z) (args : list carg) (K : Z -> Z -> Z -> payload -> hnd -> prog)
-          (s0 : option stream) (out : Z -> prog).
-Hypothesis HP : 0 < P.
-
-Definition cp (r : Z) : prog :=
-  coll_prog wr P r (a_off (arg_of args r)) size (a_count (arg_of args r)) (a_data (arg_of args r)) (K r).
-Definition bp (r tokv : Z) : prog :=
-  body_prog wr P r (a_off (arg_of args r)) size (a_count (arg_of args r)) (a_data (arg_of args r)) (K r) tokv.
-Definition fp (r : Z) (t : turn) : prog := fin_prog wr P r (K r) (t_errval t) (t_ocount t) (t_buf t).
-Definition lastp (r : Z) (t : turn) (hf : bool) : prog :=
-  bcast true (P - 1) r (t_errval t) (fun ev => K r (errclass CfgC ev) (t_ocount t) (t_buf t) (mkH true hf)).
-
-Record mid (q tokv : Z) (w : world) (ts : list turn) (s : cstate) (tk : tokst) : Prop := mkMid {
-  mid_len : len ts = q;
-  mid_done : forall r, 0 <= r < q -> spr s r = fp r (tn ts r);
-  mid_todo : forall r, q <= r < P -> spr s r = cp r;
-  mid_out : forall r, ~ 0 <= r < P -> spr s r = out r;
-  mid_ch1 : 0 < q < P -> sch s (q - 1) q = [(1, [tokv])];
-  mid_ch0 : forall a b, ~ (0 < q < P /\ a = q - 1 /\ b = q) -> sch s a b = [];
-  mid_w : fs_w (ssh s) = w;
-  mid_st0 : fs_st (ssh s) 0 = if q =? 0 then s0 else None;
-  mid_st : forall r, r <> 0 -> fs_st (ssh s) r = None;
-  mid_tk0 : q = 0 -> tk = Held 0;
-  mid_tk1 : 0 < q < P -> tk = Fly (q - 1) q 0;
-  mid_tk2 : q = P -> tk = Held (P - 1) }.
-
-(* rank q holds the token and is at the body of its turn: its stdio calls, then the token goes to q + 1 *)
-Lemma turn_tail q tokv w ts s1 w1 t : 0 <= q < P -> len ts = q ->
-  spr s1 q = bp q tokv ->
-  (forall r, 0 <= r < q -> spr s1 r = fp r (tn ts r)) ->
-  (forall r, q < r < P -> spr s1 r = cp r) ->
-  (forall r, ~ 0 <= r < P -> spr s1 r = out r) ->
-  (forall a b, sch s1 a b = []) ->
-  fs_w (ssh s1) = w -> fs_st (ssh s1) 0 = (if q =? 0 then s0 else None) -> (forall r, r <> 0 -> fs_st (ssh s1) r = None) ->
-  (q = 0 -> tokv = -1) ->
-  g_turn wr w s0 q tokv size (arg_of args q) = Some (w1, t) ->
-  exists n s' tk', cirun P n (Good s1 (Held q)) (Good s' tk') /\ mid (q + 1) (tok_out t) w1 (ts ++ [t]) s' tk'.
-Proof.
-  intros Hq Hlen Hbody Hdone Htodo Hout Hch Hw Hst0 Hst Htok0 G.
-  destruct (ssh s1) as [w0 st] eqn:Esh. cbn [fs_w fs_st] in *. subst w0.
-  assert (H0' : q = 0 -> st 0 = s0) by (intros ->; exact Hst0).
-  pose proof (turn_lrun wr P q size (arg_of args q) (K q) w st s0 tokv w1 t G H0') as L.
-  destruct (irun_lrun fsys P c12_local fs_eff c12_creply c12_gives c12_ctok q _ _ _ _ L s1 Hq Hbody Esh) as [n1 R1].
-  set (st' := if tokv =? -1 then set_st st q None else st) in *.
-  assert (Hst0' : st' 0 = None).
-  { unfold st'. destruct (Z.eq_dec q 0) as [->|Hq0].
-    - rewrite (Htok0 eq_refl). cbn [Z.eqb]. apply set_st_same.
-    - assert (E : st 0 = None) by (rewrite Hst0; destruct (Z.eqb_spec q 0); [lia|reflexivity]).
-      destruct (tokv =? -1); [rewrite set_st_other by lia|]; exact E. }
-  assert (Hst' : forall r, r <> 0 -> st' r = None).
-  { intros r Hr. unfold st'. destruct (tokv =? -1); [|apply Hst; exact Hr].
-    destruct (Z.eq_dec r q) as [->|Hrq]; [apply set_st_same|rewrite set_st_other by exact Hrq; apply Hst; exact Hr]. }
-  clearbody st'.
-  set (s2 := mkst (upd1 (spr s1) q (send_next P q (tok_out t) (fp q t))) (sch s1) (mkFS w1 st')) in *.
-  unfold send_next in *. destruct (q <? P - 1) eqn:Elast.
-  - (* the token is sent on *)
-    assert (E2 : spr s2 q = Do (Send (q + 1) 1 [tok_out t]) (fun _ => fp q t)) by (unfold s2; cbn [spr]; apply upd1_same).
-    assert (T2 : tok_send c12_gives (Held q) q (q + 1) 1 [tok_out t] (length (sch s2 q (q + 1))) = Some (Fly q (q + 1) 0)).
-    { unfold tok_send, c12_gives. rewrite Z.eqb_refl. unfold s2. cbn [sch]. rewrite Hch. reflexivity. }
-    pose proof (irun_send1 fsys P c12_local fs_eff c12_creply c12_gives c12_ctok s2 (Held q) _ q (q + 1) 1 [tok_out t] _ Hq E2 T2) as R2.
-    eexists (n1 + 1)%nat, _, _. split; [eapply irun_app; [exact R1|exact R2]|].
-    constructor; cbn [spr sch ssh fs_w fs_st].
-    + rewrite len_snoc. lia.
-    + intros r Hr. unfold s2. cbn [spr]. destruct (Z.eq_dec r q) as [->|Hrq].
-      * rewrite upd1_same. rewrite <- Hlen. rewrite tn_app_eq. reflexivity.
-      * rewrite !upd1_other by exact Hrq. rewrite tn_app_lt by lia. apply Hdone. lia.
-    + intros r Hr. unfold s2. cbn [spr]. rewrite !upd1_other by lia. apply Htodo. lia.
-    + intros r Hr. unfold s2. cbn [spr]. rewrite !upd1_other by lia. apply Hout. exact Hr.
-    + intros _. unfold s2. cbn [sch]. replace (q + 1 - 1) with q by lia. rewrite upd2_same, Hch. reflexivity.
-    + intros a b Hab. unfold s2. cbn [sch]. rewrite upd2_other by (intros E; injection E; lia). apply Hch.
-    + reflexivity.
-    + destruct (Z.eqb_spec (q + 1) 0); [lia|exact Hst0'].
-    + exact Hst'.
-    + lia.
-    + intros _. f_equal. lia.
-    + lia.
-  - (* the last rank keeps it *)
-    exists n1, s2, (Held q). split; [exact R1|].
-    constructor; unfold s2; cbn [spr sch ssh fs_w fs_st].
-    + rewrite len_snoc. lia.
-    + intros r Hr. destruct (Z.eq_dec r q) as [->|Hrq].
-      * rewrite upd1_same. rewrite <- Hlen. rewrite tn_app_eq. reflexivity.
-      * rewrite !upd1_other by exact Hrq. rewrite tn_app_lt by lia. apply Hdone. lia.
-    + intros r Hr. lia.
-    + intros r Hr. rewrite !upd1_other by lia. apply Hout. exact Hr.
-    + lia.
-    + intros a b _. apply Hch.
-    + reflexivity.
-    + destruct (Z.eqb_spec (q + 1) 0); [lia|exact Hst0'].
-    + exact Hst'.
-    + lia.
-    + lia.
-    + intros _. f_equal. lia.
-Qed.
-
-Lemma cp_rank0 : cp 0 = bp 0 (-1).
-Proof. unfold cp, bp. rewrite coll_prog_eq. reflexivity. Qed.
-Lemma cp_rank_pos q : q <> 0 -> cp q = Do (Recv (q - 1) (-1)) (fun r => bp q (hd 0 (tl r))).
-Proof.
-  intros H. unfold cp, bp. rewrite coll_prog_eq. destruct (Z.eqb_spec q 0); [contradiction|]. reflexivity.
-Qed.
-
-(* one turn from boundary q to boundary q + 1 *)
-Lemma mid_step q tokv w ts s tk w1 t : 0 <= q < P -> mid q tokv w ts s tk -> (q = 0 -> tokv = -1) ->
-  g_turn wr w s0 q tokv size (arg_of args q) = Some (w1, t) ->
-  exists n s' tk', cirun P n (Good s tk) (Good s' tk') /\ mid (q + 1) (tok_out t) w1 (ts ++ [t]) s' tk'.
-Proof.
-  intros Hq M Htok0 G. destruct M as [Mlen Mdone Mtodo Mout Mch1 Mch0 Mw Mst0 Mst Mtk0 Mtk1 Mtk2].
-  destruct (Z.eq_dec q 0) as [Eq|Nq].
-  - rewrite (Mtk0 Eq). replace (Held 0) with (Held q) by (f_equal; exact Eq).
-    apply (turn_tail q tokv w ts s w1 t); try assumption.
-    + rewrite Mtodo by lia. rewrite (Htok0 Eq). rewrite Eq. apply cp_rank0.
-    + intros r Hr. apply Mtodo. lia.
-    + intros a b. apply Mch0. lia.
-  - assert (Hq' : 0 < q < P) by lia. rewrite (Mtk1 Hq').
-    assert (E : spr s q = Do (Recv (q - 1) (-1)) (fun r => bp q (hd 0 (tl r)))) by (rewrite Mtodo by lia; apply cp_rank_pos; exact Nq).
-    assert (Pk : pick (-1) (sch s (q - 1) q) = Some (0%nat, [tokv], [])) by (rewrite (Mch1 Hq'); reflexivity).
-    pose proof (irun_recv1 fsys P c12_local fs_eff c12_creply c12_gives c12_ctok s (Fly (q - 1) q 0) q (q - 1) (-1) _ _ _ _
-                           Hq ltac:(lia) E Pk) as R1.
-    assert (Tk : tok_recv (Fly (q - 1) q 0) (q - 1) q 0 = Held q) by (unfold tok_recv; rewrite !Z.eqb_refl; reflexivity).
-    rewrite Tk in R1.
-    set (s1 := mkst (upd1 (spr s) q (bp q (hd 0 (tl (q - 1 :: [tokv]))))) (upd2 (sch s) (q - 1) q []) (ssh s)) in *.
-    destruct (turn_tail q tokv w ts s1 w1 t Hq Mlen) as (n2 & s' & tk' & R2 & M'); try assumption.
-    + unfold s1. cbn [spr]. apply upd1_same.
-    + intros r Hr. unfold s1. cbn [spr]. rewrite upd1_other by lia. apply Mdone. exact Hr.
-    + intros r Hr. unfold s1. cbn [spr]. rewrite upd1_other by lia. apply Mtodo. lia.
-    + intros r Hr. unfold s1. cbn [spr]. rewrite upd1_other by lia. apply Mout. exact Hr.
-    + intros a b. unfold s1. cbn [sch]. unfold upd2.
-      destruct (Z.eqb_spec a (q - 1)); destruct (Z.eqb_spec b q); cbn [andb]; try reflexivity; apply Mch0; lia.
-    + exists (1 + n2)%nat, s', tk'. split; [eapply irun_app; [exact R1|exact R2]|exact M'].
-Qed.
-
-Lemma skipn_cons_nth {A} (l : list A) : forall n a r d, skipn n l = a :: r -> nth n l d = a /\ skipn (S n) l = r.
-Proof.
-  induction l as [|x l IH]; intros n a r d H.
-  - destruct n; discriminate.
-  - destruct n; cbn [skipn nth] in *; [inversion H; auto|]. apply IH. exact H.
-Qed.
-
-(* all the remaining turns *)
-Lemma mid_turns : forall rest q tokv w ts s tk w' tsr, 0 <= q -> q + len rest = P ->
-  rest = skipn (Z.to_nat q) args -> mid q tokv w ts s tk -> (q = 0 -> tokv = -1) ->
-  g_turns wr w s0 q tokv size rest = Some (w', tsr) ->
-  exists n s' tk' tokv', cirun P n (Good s tk) (Good s' tk') /\ mid P tokv' w' (ts ++ tsr) s' tk'.
-Proof.
-  induction rest as [|a rest IH]; intros q tokv w ts s tk w' tsr Hq Hlen Hrest M Htok0 G.
-  - cbn [g_turns] in G. inversion G; subst. unfold len in Hlen. cbn [length] in Hlen. rewrite Z.add_0_r in Hlen. subst q.
-    exists 0%nat, s, tk, tokv. split; [constructor|]. rewrite app_nil_r. exact M.
-  - cbn [g_turns] in G.
-    assert (Hl : len (a :: rest) = len rest + 1) by (unfold len; cbn [length]; lia).
-    pose proof (len_nonneg rest) as Hnn.
-    symmetry in Hrest. destruct (skipn_cons_nth args (Z.to_nat q) a rest (mkA 0 0 []) Hrest) as [Ea Er].
-    assert (Ha : arg_of args q = a) by exact Ea.
-    destruct (g_turn wr w s0 q tokv size a) as [[w1 t]|] eqn:G1; [|discriminate].
-    destruct (g_turns wr w1 s0 (q + 1) (tok_out t) size rest) as [[w2 ts2]|] eqn:G2; [|discriminate].
-    inversion G; subst w' tsr. clear G.
-    rewrite <- Ha in G1.
-    destruct (mid_step q tokv w ts s tk w1 t ltac:(lia) M Htok0 G1) as (n1 & s1 & tk1 & R1 & M1).
-    destruct (IH (q + 1) (tok_out t) w1 (ts ++ [t]) s1 tk1 w2 ts2 ltac:(lia) ltac:(lia)) as (n2 & s2 & tk2 & tv & R2 & M2).
-    + rewrite <- Er. f_equal. lia.
-    + exact M1.
-    + lia.
-    + exact G2.
-    + exists (n1 + n2)%nat, s2, tk2, tv. split; [eapply irun_app; eauto|]. rewrite <- app_assoc in M2. exact M2.
-Qed.
-
-Lemma lastp_eq r t hf :
-  lastp r t hf = Do (Coll K_BCAST (P - 1) (if r =? P - 1 then [t_errval t] else []))
-                    (fun o => K r (errclass CfgC (if r =? P - 1 then t_errval t else hd 0 o)) (t_ocount t) (t_buf t) (mkH true hf)).
-Proof. reflexivity. Qed.
-
-(* barrier, re-open by rank 0, broadcast of the last rank's error value *)
-Lemma finale tokv w ts s w2 so :
-  mid P tokv w ts s (Held (P - 1)) -> g_fopen w 0 (c_mode wr) = (w2, so, 0) ->
-  exists n s', cirun P n (Good s (Held (P - 1))) (Good s' (Held 0))
-    /\ (forall r, 0 <= r < P -> spr s' r = K r (errclass CfgC (t_errval (tn ts (P - 1)))) (t_ocount (tn ts r)) (t_buf (tn ts r))
-                                              (mkH true ((r =? 0) && is_some so)))
-    /\ (forall r, ~ 0 <= r < P -> spr s' r = out r)
-    /\ (forall a b, sch s' a b = [])
-    /\ fs_w (ssh s') = w2 /\ fs_st (ssh s') 0 = so /\ (forall r, r <> 0 -> fs_st (ssh s') r = None).
-Proof.
-  intros M Go. destruct M as [Mlen Mdone Mtodo Mout Mch1 Mch0 Mw Mst0 Mst Mtk0 Mtk1 Mtk2].
-  (* 1. the barrier *)
-  assert (A1 : at_coll fsys P s K_BARRIER 0).
-  { intros r Hr. rewrite (Mdone r Hr). unfold fp, fin_prog. eauto. }
-  pose proof (irun_coll1 fsys P c12_local fs_eff c12_creply c12_gives c12_ctok s (Held (P - 1)) K_BARRIER 0 HP eq_refl A1) as R1.
-  change (tok_coll c12_ctok (Held (P - 1)) K_BARRIER 0) with (Held 0) in R1.
-  set (s4 := mkst (advance fsys P c12_creply s K_BARRIER 0) (sch s) (ssh s)) in *.
-  assert (E4 : forall r, 0 <= r < P -> spr s4 r =
-             if r =? 0 then io K_FOPEN [mode_code (c_mode wr)]
-                               (fun x => if negb (r1 x =? 0) then abort else lastp r (tn ts r) (r0 x =? 1))
-             else lastp r (tn ts r) false).
-  { intros r Hr. unfold s4. cbn [spr]. unfold advance.
-    replace ((0 <=? r) && (r <? P)) with true by lia. rewrite (Mdone r Hr). reflexivity. }
-  assert (O4 : forall r, ~ 0 <= r < P -> spr s4 r = out r).
-  { intros r Hr. unfold s4. cbn [spr]. unfold advance.
-    replace ((0 <=? r) && (r <? P)) with false by lia. apply Mout. exact Hr. }
-  (* 2. rank 0 opens the file again *)
-  destruct (ssh s) as [w0 st] eqn:Esh. cbn [fs_w fs_st] in *. subst w0.
-  assert (L : clrun 0 (spr s4 0) (mkFS w st) (lastp 0 (tn ts 0) (is_some so)) (mkFS w2 (set_st st 0 so))).
-  { rewrite E4 by lia. cbn [Z.eqb]. unfold io. eapply lrun_cons; [reflexivity|].
-    rewrite eff_fopen, Go. cbn [fst snd]. unfold r0, r1. cbn [nth negb Z.eqb].
-    replace ((if is_some so then 1 else 0) =? 1) with (is_some so) by (destruct so; reflexivity). apply lrun_nil. }
-  destruct (irun_lrun fsys P c12_local fs_eff c12_creply c12_gives c12_ctok 0 _ _ _ _ L s4 ltac:(lia) eq_refl eq_refl) as [n2 R2].
-  set (s5 := mkst (upd1 (spr s4) 0 (lastp 0 (tn ts 0) (is_some so))) (sch s4) (mkFS w2 (set_st st 0 so))) in *.
-  assert (E5 : forall r, 0 <= r < P -> spr s5 r = lastp r (tn ts r) ((r =? 0) && is_some so)).
-  { intros r Hr. unfold s5. cbn [spr]. destruct (Z.eqb_spec r 0) as [->|Hr0]; cbn [andb].
-    - apply upd1_same.
-    - rewrite upd1_other by exact Hr0. rewrite (E4 r Hr). destruct (Z.eqb_spec r 0); [contradiction|reflexivity]. }
-  (* 3. the broadcast from the last rank *)
-  assert (A5 : at_coll fsys P s5 K_BCAST (P - 1)).
-  { intros r Hr. rewrite (E5 r Hr), lastp_eq. eauto. }
-  pose proof (irun_coll1 fsys P c12_local fs_eff c12_creply c12_gives c12_ctok s5 (Held 0) K_BCAST (P - 1) HP eq_refl A5) as R3.
-  change (tok_coll c12_ctok (Held 0) K_BCAST (P - 1)) with (Held 0) in R3.
-  eexists (1 + n2 + 1)%nat, _. split; [eapply irun_app; [eapply irun_app; [exact R1|exact R2]|exact R3]|].
-  cbn [spr sch ssh fs_w fs_st]. split; [|split; [|split; [|split; [|split]]]].
-  - intros r Hr. unfold advance. replace ((0 <=? r) && (r <? P)) with true by lia.
-    rewrite (E5 r Hr), lastp_eq. unfold c12_creply. cbn [Z.eqb K_BCAST]. unfold contribs.
-    rewrite (E5 (P - 1)) by lia. rewrite lastp_eq. rewrite Z.eqb_refl. cbn [hd].
-    destruct (r =? P - 1) eqn:Er; [|reflexivity].
-    assert (r = P - 1) as -> by lia. reflexivity.
-  - intros r Hr. unfold advance. replace ((0 <=? r) && (r <? P)) with false by lia.
-    unfold s5. cbn [spr]. rewrite upd1_other by lia. apply O4. exact Hr.
-  - intros a b. apply Mch0. lia.
-  - reflexivity.
-  - apply set_st_same.
-  - intros r Hr. unfold s5. cbn [ssh fs_st]. rewrite set_st_other by exact Hr. apply Mst. exact Hr.
-Qed.
-
-Lemma last_tn : forall ts, ts <> [] -> last ts (mkT 0 0 []) = tn ts (len ts - 1).
-Proof.
-  induction ts as [|t ts IH]; intros H; [congruence|].
-  destruct ts as [|t' ts'].
-  - reflexivity.
-  - rewrite last_cons by congruence. rewrite IH by congruence. unfold tn, len. cbn [length].
-    replace (Z.to_nat (Z.of_nat (S (S (length ts'))) - 1)) with (S (Z.to_nat (Z.of_nat (S (length ts')) - 1))) by lia.
-    reflexivity.
-Qed.
-
-Lemma g_turns_length : forall rest w q tokv w' ts, g_turns wr w s0 q tokv size rest = Some (w', ts) -> length ts = length rest.
-Proof.
-  induction rest as [|a rest IH]; intros w q tokv w' ts G; cbn [g_turns] in G.
-  - inversion G. reflexivity.
-  - destruct (g_turn wr w s0 q tokv size a) as [[w1 t]|]; [|discriminate].
-    destruct (g_turns wr w1 s0 (q + 1) (tok_out t) size rest) as [[w2 ts2]|] eqn:G2; [|discriminate].
-    inversion G; subst. cbn [length]. f_equal. eapply IH. exact G2.
-Qed.
-
-(* THE RANK-ORDER SCHEDULE of one collective read / write, inside an arbitrary continuation K and frame `out` *)
-Lemma coll_witness s w ctx g' rs : len args = P ->
-  (forall r, 0 <= r < P -> spr s r = cp r) -> (forall r, ~ 0 <= r < P -> spr s r = out r) ->
-  (forall a b, sch s a b = []) ->
-  fs_w (ssh s) = w -> fs_st (ssh s) 0 = s0 -> (forall r, r <> 0 -> fs_st (ssh s) r = None) ->
-  g_coll wr (mkG w s0 ctx) size args = Some (g', rs) ->
-  exists n s', cirun P n (Good s (Held 0)) (Good s' (Held 0))
-    /\ (forall r, 0 <= r < P ->
-          spr s' r = K r (r_cls (nth (Z.to_nat r) rs (mkR 0 0 []))) (r_ocount (nth (Z.to_nat r) rs (mkR 0 0 [])))
-                         (r_buf (nth (Z.to_nat r) rs (mkR 0 0 []))) (mkH true ((r =? 0) && is_some (g_s0 g'))))
-    /\ (forall r, ~ 0 <= r < P -> spr s' r = out r)
-    /\ (forall a b, sch s' a b = [])
-    /\ fs_w (ssh s') = g_w g' /\ fs_st (ssh s') 0 = g_s0 g' /\ (forall r, r <> 0 -> fs_st (ssh s') r = None)
-    /\ g_ctx g' = ctx /\ len rs = P.
-Proof.
-  intros Hlen Hp Ho Hc Hw Hs0 Hst G. unfold g_coll in G. cbn [g_w g_s0 g_ctx] in G.
-  destruct (g_turns wr w s0 0 (-1) size args) as [[w1 ts]|] eqn:Gt; [|discriminate].
-  destruct (g_fopen w1 0 (if wr then MAppend else MRead)) as [[w2 so] e] eqn:Go.
-  destruct (e =? 0) eqn:Ee; cbn [negb] in G; [|discriminate]. apply Z.eqb_eq in Ee. subst e.
-  inversion G; subst g' rs. clear G. cbn [g_w g_s0 g_ctx].
-  assert (M0 : mid 0 (-1) w [] s (Held 0)).
-  { constructor.
-    - reflexivity.
-    - intros r Hr. lia.
-    - intros r Hr. apply Hp. lia.
-    - exact Ho.
-    - intros Hx. lia.
-    - intros a b _. apply Hc.
-    - exact Hw.
-    - exact Hs0.
-    - exact Hst.
-    - reflexivity.
-    - intros Hx. lia.
-    - intros Hx. lia. }
-  destruct (mid_turns args 0 (-1) w [] s (Held 0) w1 ts ltac:(lia) ltac:(lia) eq_refl M0 ltac:(auto) Gt)
-    as (n1 & s1 & tk1 & tv & R1 & M1).
-  cbn [app] in M1. pose proof (mid_tk2 _ _ _ _ _ _ M1 eq_refl) as Etk. subst tk1.
-  destruct (finale tv w1 ts s1 w2 so M1 Go) as (n2 & s2 & R2 & Fp & Fo & Fc & Fw & Fs0 & Fst).
-  exists (n1 + n2)%nat, s2. split; [eapply irun_app; eauto|].
-  pose proof (g_turns_length _ _ _ _ _ _ Gt) as Lts.
-  assert (Hlts : len ts = P) by (unfold len in *; lia).
-  assert (Hne : ts <> []) by (intros ->; unfold len in Hlts; cbn in Hlts; lia).
-  split; [|split; [exact Fo|split; [exact Fc|split; [exact Fw|split; [exact Fs0|split; [exact Fst|split; [reflexivity|]]]]]]].
-  - intros r Hr. rewrite (Fp r Hr). rewrite last_tn by exact Hne. rewrite Hlts.
-    set (f := fun t : turn => mkR (errclass CfgC (t_errval (tn ts (P - 1)))) (t_ocount t) (t_buf t)).
-    rewrite (nth_indep (map f ts) (mkR 0 0 []) (f dturn)) by (rewrite map_length; unfold len in Hlts; lia).
-    rewrite map_nth. reflexivity.
-  - unfold len. rewrite map_length. exact Hlts.
-Qed.
-
-End Witness.
-
-(* ================================================================== EVERY SCHEDULE of one collective operation *)
-Definition csched (P : Z) := schedule_independent fsys P c12_local fs_eff c12_creply.
-
-Lemma in_range_true r P : 0 <= r < P -> (0 <=? r) && (r <? P) = true.
-Proof. lia. Qed.
-Lemma in_range_false r P : ~ 0 <= r < P -> (0 <=? r) && (r <? P) = false.
-Proof. lia. Qed.
-
-Theorem coll_every_schedule wr size args g g' rs : 0 < len args ->
-  g_coll wr g size args = Some (g', rs) ->
-  cfinal (len args) (coll_final (len args) g' rs)
-  /\ exists n, csched (len args) (coll_state wr (len args) size args (g_w g) (g_s0 g)) (coll_final (len args) g' rs) n.
-Proof.
-  intros HP G. set (P := len args) in *.
-  split.
-  { intros r Hr. unfold coll_final. cbn [spr]. rewrite in_range_true by exact Hr. unfold k_ret. eauto. }
-  destruct g as [w s0 ctx]. cbn [g_w g_s0].
-  destruct (coll_witness wr P size args (fun _ => k_ret) s0 (fun _ => Ret []) HP
-                         (coll_state wr P size args w s0) w ctx g' rs eq_refl) as (n & s' & R & Fp & Fo & Fc & Fw & Fs0 & Fst & _ & _).
-  - intros r Hr. unfold coll_state. cbn [spr]. rewrite in_range_true by exact Hr. reflexivity.
-  - intros r Hr. unfold coll_state. cbn [spr]. rewrite in_range_false by exact Hr. reflexivity.
-  - reflexivity.
-  - reflexivity.
-  - reflexivity.
-  - intros r Hr. unfold coll_state. cbn [ssh fs_st]. destruct (Z.eqb_spec r 0); [contradiction|reflexivity].
-  - exact G.
-  - exists n.
-    assert (E : s' = coll_final P g' rs).
-    { destruct s' as [pr' ch' [w' st']]. cbn [spr sch ssh fs_w fs_st] in *. unfold coll_final. f_equal.
-      - extensionality r. destruct (Z.le_gt_cases 0 r); [destruct (Z.lt_ge_cases r P)|].
-        + rewrite in_range_true by lia. apply Fp. lia.
-        + rewrite in_range_false by lia. apply Fo. lia.
-        + rewrite in_range_false by lia. apply Fo. lia.
-      - extensionality a. extensionality b. apply Fc.
-      - f_equal; [exact Fw|]. extensionality q. destruct (Z.eqb_spec q 0) as [->|Hq]; [exact Fs0|apply Fst; exact Hq]. }
-    rewrite E in R.
-    eapply one_schedule_independent; [exact R|].
-    intros r Hr. unfold coll_final. cbn [spr]. rewrite in_range_true by exact Hr. unfold k_ret. eauto.
-Qed.
-
-(* fault-free collective write: in EVERY schedule the file ends up as the old content followed by the blocks in rank
-   order, every rank returns SUCCESS and ocount = count *)
-Corollary coll_write_every_schedule g c fl op lg s size args :
-  wst (g_w g) c fl op lg -> g_s0 g = Some s -> at_end s c -> args <> [] -> Forall (wf_arg size) args ->
-  forall m s', crun (len args) m (coll_state true (len args) size args (g_w g) (g_s0 g)) s' ->
-    (cfinal (len args) s' \/ exists l s'', cstep (len args) s' l s'')
-    /\ (cfinal (len args) s' ->
-          content (fs_w (ssh s')) = c ++ concat (map a_data args)
-          /\ forall r, 0 <= r < len args ->
-               spr s' r = k_ret (SUCCESS CfgC) (a_count (arg_of args r)) [] (mkH true (r =? 0))).
-Proof.
-  intros Hw Hs He Hne Hwf m s' Hrun.
-  destruct (coll_write_nf g c fl op lg s size args Hw Hs He Hne Hwf) as (g' & G & Hw' & Hs' & _).
-  assert (HP : 0 < len args) by (destruct args; [congruence|unfold len; cbn [length]; lia]).
-  destruct (coll_every_schedule true size args g g' _ HP G) as (_ & n & Hall).
-  destruct (Hall m s' Hrun) as (_ & _ & Hfin & Hns & _).
-  split; [exact Hns|]. intros Hf. destruct (Hfin Hf) as [-> _].
-  split.
-  - unfold coll_final. cbn [ssh fs_w]. apply (wst_content _ _ _ _ _ Hw').
-  - intros r Hr. unfold coll_final. cbn [spr]. rewrite in_range_true by exact Hr.
-    rewrite Hs'. cbn [is_some]. rewrite andb_true_r.
-    change (mkR 0 0 []) with ((fun a => mkR (SUCCESS CfgC) (a_count a) []) (mkA 0 0 [])). rewrite map_nth. reflexivity.
-Qed.
-
 (* ------------------------------------------------------------------ the ledger of allocated contexts
    g_open / g_close account for SC_ALLOC / SC_FREE of the file context in w_ledger; these are no actions of the per-rank
    programs, so the shared state of the interleaving semantics carries the world WITHOUT the ledger (`erase`).  No stdio
@@ -760,8 +328,9 @@ Lemma erase_fopen w q m :
   g_fopen (erase w) q m = (erase (fst (fst (g_fopen w q m))), snd (fst (g_fopen w q m)), snd (g_fopen w q m))
   /\ w_plan (fst (fst (g_fopen w q m))) = w_plan w.
 Proof.
-  unfold g_fopen, take. cbn [erase w_node w_plan w_cnt w_fail w_open w_ledger].
-  destruct (w_plan w q FOPEN (w_cnt w q FOPEN)) as [[e sh]|].
+  unfold g_fopen, fopen_nat, take. cbn [erase w_node w_plan w_cnt w_fail w_open w_ledger].
+  destruct (w_plan w q FOPEN (w_cnt w q FOPEN)) as [[e sh]|]; [destruct (sh =? NOISE)|].
+  - destruct (w_node w); destruct m; cbn [fst snd]; rewrite ?erase_note, ?plan_note; split; reflexivity.
   - cbn [fst snd]. rewrite erase_note, plan_note. split; reflexivity.
   - destruct (w_node w); destruct m; cbn [fst snd]; rewrite ?erase_note, ?plan_note; split; reflexivity.
 Qed.
@@ -770,21 +339,21 @@ Lemma erase_fclose w q :
   /\ w_plan (fst (fst (g_fclose w q))) = w_plan w.
 Proof.
   unfold g_fclose, take. cbn [erase w_node w_plan w_cnt w_fail w_open w_ledger].
-  destruct (w_plan w q FCLOSE (w_cnt w q FCLOSE)) as [[e sh]|]; cbn [fst snd]; rewrite ?erase_note, ?plan_note; split; reflexivity.
+  destruct (w_plan w q FCLOSE (w_cnt w q FCLOSE)) as [[e sh]|]; [destruct (sh =? NOISE)|]; cbn [fst snd]; rewrite ?erase_note, ?plan_note; split; reflexivity.
 Qed.
 Lemma erase_fflush w q :
   g_fflush (erase w) q = (erase (fst (fst (g_fflush w q))), snd (fst (g_fflush w q)), snd (g_fflush w q))
   /\ w_plan (fst (fst (g_fflush w q))) = w_plan w.
 Proof.
   unfold g_fflush, take. cbn [erase w_node w_plan w_cnt w_fail w_open w_ledger].
-  destruct (w_plan w q FFLUSH (w_cnt w q FFLUSH)) as [[e sh]|]; cbn [fst snd]; rewrite ?erase_note, ?plan_note; split; reflexivity.
+  destruct (w_plan w q FFLUSH (w_cnt w q FFLUSH)) as [[e sh]|]; [destruct (sh =? NOISE)|]; cbn [fst snd]; rewrite ?erase_note, ?plan_note; split; reflexivity.
 Qed.
 Lemma erase_ftell w q s :
   g_ftell (erase w) q s = (erase (fst (fst (g_ftell w q s))), snd (fst (g_ftell w q s)), snd (g_ftell w q s))
   /\ w_plan (fst (fst (g_ftell w q s))) = w_plan w.
 Proof.
   unfold g_ftell, take. cbn [erase w_node w_plan w_cnt w_fail w_open w_ledger].
-  destruct (w_plan w q FTELL (w_cnt w q FTELL)) as [[e sh]|]; cbn [fst snd]; rewrite ?erase_note, ?plan_note; split; reflexivity.
+  destruct (w_plan w q FTELL (w_cnt w q FTELL)) as [[e sh]|]; [destruct (sh =? NOISE)|]; cbn [fst snd]; rewrite ?erase_note, ?plan_note; split; reflexivity.
 Qed.
 Lemma erase_fseek w q s off :
   g_fseek (erase w) q s off = (erase (fst (fst (fst (g_fseek w q s off)))), snd (fst (fst (g_fseek w q s off))),
@@ -792,7 +361,7 @@ Lemma erase_fseek w q s off :
   /\ w_plan (fst (fst (fst (g_fseek w q s off)))) = w_plan w.
 Proof.
   unfold g_fseek, take. cbn [erase w_node w_plan w_cnt w_fail w_open w_ledger].
-  destruct (w_plan w q FSEEK (w_cnt w q FSEEK)) as [[e sh]|]; [|destruct (off <? 0)];
+  destruct (w_plan w q FSEEK (w_cnt w q FSEEK)) as [[e sh]|]; [destruct (sh =? NOISE)|]; try destruct (off <? 0);
     cbn [fst snd]; rewrite ?erase_note, ?plan_note; split; reflexivity.
 Qed.
 Lemma erase_fwrite w q s size count data :
@@ -908,6 +477,456 @@ Proof.
     destruct (g_fseek w3 q s3 pos) as [[[w4 s4] r4] e4]. cbn [fst snd gerase g_w g_s0 g_ctx] in *. split; [reflexivity|congruence].
 Qed.
 
+
+Lemma transfer_lrun wr P q size a k wa st s w1 t : st q = Some s ->
+  turn_io wr wa q s size a = Some (w1, t) ->
+  clrun q (transfer_prog wr P q (a_off a) size (a_count a) (a_data a) k) (mkFS wa st)
+        (send_next P q (tok_out t) (fin_prog wr P q k (t_errval t) (t_ocount t) (t_buf t)))
+        (mkFS w1 (set_st st q None)).
+Proof.
+  intros Hs. unfold turn_io, transfer_prog, xfer_prog. destruct wr.
+  - destruct (g_fwrite wa q s size (a_count a) (a_data a)) as [[[w3 s3] oc] e3] eqn:E3.
+    destruct (g_fflush w3 q) as [[w4 r4] e4] eqn:E4.
+    destruct (r4 =? 0) eqn:B4; cbn [negb]; [|discriminate].
+    destruct (g_fclose w4 q) as [[w5 r5] e5] eqn:E5.
+    destruct (r5 =? 0) eqn:B5; cbn [negb]; [|discriminate].
+    intros G. inversion G; subst. clear G. cbn [t_errval t_ocount t_buf].
+    unfold io. eapply lrun_cons; [reflexivity|]. rewrite (eff_fwrite _ _ _ s) by exact Hs. rewrite E3. cbn [fst snd].
+    unfold r0, r1, rdata. cbn [nth skipn].
+    eapply lrun_cons; [reflexivity|]. rewrite eff_fflush, E4. cbn [fst snd nth]. rewrite B4. cbn [negb].
+    eapply lrun_cons; [reflexivity|]. rewrite eff_fclose, E5. cbn [fst snd nth]. rewrite B5. cbn [negb].
+    rewrite set_st_twice. rewrite (tok_out_if e3 oc []). apply lrun_nil.
+  - destruct (g_fseek wa q s (a_off a)) as [[[w2 s2] r2] e2] eqn:E2.
+    destruct (r2 =? 0) eqn:B2; [|discriminate].
+    destruct (g_fread w2 q s2 size (a_count a)) as [[[[w3 s3] oc] e3] buf] eqn:E3.
+    destruct (g_fflush w3 q) as [[w4 r4] e4] eqn:E4.
+    destruct (r4 =? 0) eqn:B4; cbn [negb]; [|discriminate].
+    destruct (g_fclose w4 q) as [[w5 r5] e5] eqn:E5.
+    destruct (r5 =? 0) eqn:B5; cbn [negb]; [|discriminate].
+    intros G. inversion G; subst. clear G. cbn [t_errval t_ocount t_buf].
+    unfold io. eapply lrun_cons; [reflexivity|]. rewrite (eff_fseek _ _ _ s) by exact Hs. rewrite E2. cbn [fst snd].
+    unfold r0 at 1. cbn [nth]. rewrite B2. cbn [negb].
+    eapply lrun_cons; [reflexivity|]. rewrite (eff_fread _ _ _ s2) by apply set_st_same. rewrite E3. cbn [fst snd].
+    unfold r0, r1, rdata. cbn [nth skipn].
+    eapply lrun_cons; [reflexivity|]. rewrite eff_fflush, E4. cbn [fst snd nth]. rewrite B4. cbn [negb].
+    eapply lrun_cons; [reflexivity|]. rewrite eff_fclose, E5. cbn [fst snd nth]. rewrite B5. cbn [negb].
+    rewrite !set_st_twice. rewrite (tok_out_if e3 oc buf). apply lrun_nil.
+Qed.
+
+Lemma turn_lrun wr P q size a k w st s0 tokv w1 t : fopen_honest (w_plan w) ->
+  g_turn wr w s0 q tokv size a = Some (w1, t) -> (q = 0 -> st 0 = s0) ->
+  clrun q (body_prog wr P q (a_off a) size (a_count a) (a_data a) k tokv) (mkFS w st)
+        (send_next P q (tok_out t) (fin_prog wr P q k (t_errval t) (t_ocount t) (t_buf t)))
+        (mkFS w1 (if tokv =? -1 then set_st st q None else st)).
+Proof.
+  intros Hh. rewrite g_turn_eq. unfold body_prog. intros G H0.
+  destruct (tokv =? -1) eqn:Et.
+  - destruct (Z.eqb_spec q 0) as [->|Hq]; cbn [negb].
+    + cbn [negb Z.eqb] in G. destruct s0 as [s|]; [|discriminate].
+      apply transfer_lrun with (s := s); [apply H0; reflexivity|exact G].
+    + destruct (g_fopen w q (if wr then MAppend else MRead)) as [[wa so] e1] eqn:Eo.
+      unfold io. eapply lrun_cons; [reflexivity|]. unfold c_mode. rewrite eff_fopen, Eo. cbn [fst snd].
+      unfold r1 at 1. unfold r1 at 1. cbn [nth].
+      destruct (e1 =? 0) eqn:B1; cbn [negb] in *.
+      * destruct so as [s|]; [|discriminate].
+        replace (set_st st q None) with (set_st (set_st st q (Some s)) q None) by apply set_st_twice.
+        apply transfer_lrun with (s := s); [apply set_st_same|exact G].
+      * inversion G; subst. clear G. cbn [t_errval t_ocount t_buf].
+        assert (so = None) as -> by (eapply fopen_err_none; [exact Hh|exact Eo|intros ->; discriminate]).
+        unfold tok_out. cbn [t_errval]. rewrite B1. unfold r1. cbn [nth]. apply lrun_nil.
+  - destruct (0 <? tokv) eqn:Ep; [|discriminate].
+    inversion G; subst. clear G. cbn [t_errval t_ocount t_buf].
+    assert (tok_out (mkT tokv 0 []) = tokv) as ->.
+    { unfold tok_out. cbn [t_errval]. destruct (Z.eqb_spec tokv 0); [lia|reflexivity]. }
+    apply lrun_nil.
+Qed.
+
+(* ------------------------------------------------------------------ the rank-order schedule of one collective operation *)
+Definition cirun (P : Z) := irun fsys P c12_local fs_eff c12_creply c12_gives c12_ctok.
+Definition dturn : turn := mkT 0 0 [].
+Definition tn (ts : list turn) (r : Z) : turn := nth (Z.to_nat r) ts dturn.
+
+Lemma tn_app_lt ts l r : 0 <= r < len ts -> tn (ts ++ l) r = tn ts r.
+Proof. intros H. unfold tn, len in *. apply app_nth1. lia. Qed.
+Lemma tn_app_eq ts t l : tn (ts ++ t :: l) (len ts) = t.
+Proof. unfold tn, len. rewrite app_nth2 by lia. replace (Z.to_nat (Z.of_nat (length ts)) - length ts)%nat with 0%nat by lia. reflexivity. Qed.
+Lemma len_snoc {A} (l : list A) x : len (l ++ [x]) = len l + 1.
+Proof. unfold len. rewrite app_length. cbn [length]. lia. Qed.
+
+Section Witness.
+Variables (wr : bool) (P size : Z) (args : list carg) (K : Z -> Z -> Z -> payload -> hnd -> prog)
+          (s0 : option stream) (out : Z -> prog).
+Hypothesis HP : 0 < P.
+
+Definition cp (r : Z) : prog :=
+  coll_prog wr P r (a_off (arg_of args r)) size (a_count (arg_of args r)) (a_data (arg_of args r)) (K r).
+Definition bp (r tokv : Z) : prog :=
+  body_prog wr P r (a_off (arg_of args r)) size (a_count (arg_of args r)) (a_data (arg_of args r)) (K r) tokv.
+Definition fp (r : Z) (t : turn) : prog := fin_prog wr P r (K r) (t_errval t) (t_ocount t) (t_buf t).
+Definition lastp (r : Z) (t : turn) (hf : bool) : prog :=
+  bcast true (P - 1) r (t_errval t) (fun ev => K r (errclass CfgC ev) (t_ocount t) (t_buf t) (mkH true hf)).
+
+Record mid (q tokv : Z) (w : world) (ts : list turn) (s : cstate) (tk : tokst) : Prop := mkMid {
+  mid_len : len ts = q;
+  mid_done : forall r, 0 <= r < q -> spr s r = fp r (tn ts r);
+  mid_todo : forall r, q <= r < P -> spr s r = cp r;
+  mid_out : forall r, ~ 0 <= r < P -> spr s r = out r;
+  mid_ch1 : 0 < q < P -> sch s (q - 1) q = [(1, [tokv])];
+  mid_ch0 : forall a b, ~ (0 < q < P /\ a = q - 1 /\ b = q) -> sch s a b = [];
+  mid_w : fs_w (ssh s) = w;
+  mid_hon : fopen_honest (w_plan w);
+  mid_st0 : fs_st (ssh s) 0 = if q =? 0 then s0 else None;
+  mid_st : forall r, r <> 0 -> fs_st (ssh s) r = None;
+  mid_tk0 : q = 0 -> tk = Held 0;
+  mid_tk1 : 0 < q < P -> tk = Fly (q - 1) q 0;
+  mid_tk2 : q = P -> tk = Held (P - 1) }.
+
+(* rank q holds the token and is at the body of its turn: its stdio calls, then the token goes to q + 1 *)
+Lemma turn_tail q tokv w ts s1 w1 t : 0 <= q < P -> len ts = q ->
+  spr s1 q = bp q tokv ->
+  (forall r, 0 <= r < q -> spr s1 r = fp r (tn ts r)) ->
+  (forall r, q < r < P -> spr s1 r = cp r) ->
+  (forall r, ~ 0 <= r < P -> spr s1 r = out r) ->
+  (forall a b, sch s1 a b = []) ->
+  fs_w (ssh s1) = w -> fopen_honest (w_plan w) ->
+  fs_st (ssh s1) 0 = (if q =? 0 then s0 else None) -> (forall r, r <> 0 -> fs_st (ssh s1) r = None) ->
+  (q = 0 -> tokv = -1) ->
+  g_turn wr w s0 q tokv size (arg_of args q) = Some (w1, t) ->
+  exists n s' tk', cirun P n (Good s1 (Held q)) (Good s' tk') /\ mid (q + 1) (tok_out t) w1 (ts ++ [t]) s' tk'.
+Proof.
+  intros Hq Hlen Hbody Hdone Htodo Hout Hch Hw Hhon Hst0 Hst Htok0 G.
+  destruct (ssh s1) as [w0 st] eqn:Esh. cbn [fs_w fs_st] in *. subst w0.
+  assert (H0' : q = 0 -> st 0 = s0) by (intros ->; exact Hst0).
+  pose proof (turn_lrun wr P q size (arg_of args q) (K q) w st s0 tokv w1 t Hhon G H0') as L.
+  assert (Hhon1 : fopen_honest (w_plan w1)).
+  { pose proof (proj2 (erase_turn wr w s0 q tokv size (arg_of args q))) as Pl. rewrite G in Pl. cbn [oplan] in Pl. rewrite Pl. exact Hhon. }
+  destruct (irun_lrun fsys P c12_local fs_eff c12_creply c12_gives c12_ctok q _ _ _ _ L s1 Hq Hbody Esh) as [n1 R1].
+  set (st' := if tokv =? -1 then set_st st q None else st) in *.
+  assert (Hst0' : st' 0 = None).
+  { unfold st'. destruct (Z.eq_dec q 0) as [->|Hq0].
+    - rewrite (Htok0 eq_refl). cbn [Z.eqb]. apply set_st_same.
+    - assert (E : st 0 = None) by (rewrite Hst0; destruct (Z.eqb_spec q 0); [lia|reflexivity]).
+      destruct (tokv =? -1); [rewrite set_st_other by lia|]; exact E. }
+  assert (Hst' : forall r, r <> 0 -> st' r = None).
+  { intros r Hr. unfold st'. destruct (tokv =? -1); [|apply Hst; exact Hr].
+    destruct (Z.eq_dec r q) as [->|Hrq]; [apply set_st_same|rewrite set_st_other by exact Hrq; apply Hst; exact Hr]. }
+  clearbody st'.
+  set (s2 := mkst (upd1 (spr s1) q (send_next P q (tok_out t) (fp q t))) (sch s1) (mkFS w1 st')) in *.
+  unfold send_next in *. destruct (q <? P - 1) eqn:Elast.
+  - (* the token is sent on *)
+    assert (E2 : spr s2 q = Do (Send (q + 1) 1 [tok_out t]) (fun _ => fp q t)) by (unfold s2; cbn [spr]; apply upd1_same).
+    assert (T2 : tok_send c12_gives (Held q) q (q + 1) 1 [tok_out t] (length (sch s2 q (q + 1))) = Some (Fly q (q + 1) 0)).
+    { unfold tok_send, c12_gives. rewrite Z.eqb_refl. unfold s2. cbn [sch]. rewrite Hch. reflexivity. }
+    pose proof (irun_send1 fsys P c12_local fs_eff c12_creply c12_gives c12_ctok s2 (Held q) _ q (q + 1) 1 [tok_out t] _ Hq E2 T2) as R2.
+    eexists (n1 + 1)%nat, _, _. split; [eapply irun_app; [exact R1|exact R2]|].
+    constructor; cbn [spr sch ssh fs_w fs_st].
+    + rewrite len_snoc. lia.
+    + intros r Hr. unfold s2. cbn [spr]. destruct (Z.eq_dec r q) as [->|Hrq].
+      * rewrite upd1_same. rewrite <- Hlen. rewrite tn_app_eq. reflexivity.
+      * rewrite !upd1_other by exact Hrq. rewrite tn_app_lt by lia. apply Hdone. lia.
+    + intros r Hr. unfold s2. cbn [spr]. rewrite !upd1_other by lia. apply Htodo. lia.
+    + intros r Hr. unfold s2. cbn [spr]. rewrite !upd1_other by lia. apply Hout. exact Hr.
+    + intros _. unfold s2. cbn [sch]. replace (q + 1 - 1) with q by lia. rewrite upd2_same, Hch. reflexivity.
+    + intros a b Hab. unfold s2. cbn [sch]. rewrite upd2_other by (intros E; injection E; lia). apply Hch.
+    + reflexivity.
+    + exact Hhon1.
+    + destruct (Z.eqb_spec (q + 1) 0); [lia|exact Hst0'].
+    + exact Hst'.
+    + lia.
+    + intros _. f_equal. lia.
+    + lia.
+  - (* the last rank keeps it *)
+    exists n1, s2, (Held q). split; [exact R1|].
+    constructor; unfold s2; cbn [spr sch ssh fs_w fs_st].
+    + rewrite len_snoc. lia.
+    + intros r Hr. destruct (Z.eq_dec r q) as [->|Hrq].
+      * rewrite upd1_same. rewrite <- Hlen. rewrite tn_app_eq. reflexivity.
+      * rewrite !upd1_other by exact Hrq. rewrite tn_app_lt by lia. apply Hdone. lia.
+    + intros r Hr. lia.
+    + intros r Hr. rewrite !upd1_other by lia. apply Hout. exact Hr.
+    + lia.
+    + intros a b _. apply Hch.
+    + reflexivity.
+    + exact Hhon1.
+    + destruct (Z.eqb_spec (q + 1) 0); [lia|exact Hst0'].
+    + exact Hst'.
+    + lia.
+    + lia.
+    + intros _. f_equal. lia.
+Qed.
+
+Lemma cp_rank0 : cp 0 = bp 0 (-1).
+Proof. unfold cp, bp. rewrite coll_prog_eq. reflexivity. Qed.
+Lemma cp_rank_pos q : q <> 0 -> cp q = Do (Recv (q - 1) (-1)) (fun r => bp q (hd 0 (tl r))).
+Proof.
+  intros H. unfold cp, bp. rewrite coll_prog_eq. destruct (Z.eqb_spec q 0); [contradiction|]. reflexivity.
+Qed.
+
+(* one turn from boundary q to boundary q + 1 *)
+Lemma mid_step q tokv w ts s tk w1 t : 0 <= q < P -> mid q tokv w ts s tk -> (q = 0 -> tokv = -1) ->
+  g_turn wr w s0 q tokv size (arg_of args q) = Some (w1, t) ->
+  exists n s' tk', cirun P n (Good s tk) (Good s' tk') /\ mid (q + 1) (tok_out t) w1 (ts ++ [t]) s' tk'.
+Proof.
+  intros Hq M Htok0 G. destruct M as [Mlen Mdone Mtodo Mout Mch1 Mch0 Mw Mhon Mst0 Mst Mtk0 Mtk1 Mtk2].
+  destruct (Z.eq_dec q 0) as [Eq|Nq].
+  - rewrite (Mtk0 Eq). replace (Held 0) with (Held q) by (f_equal; exact Eq).
+    apply (turn_tail q tokv w ts s w1 t); try assumption.
+    + rewrite Mtodo by lia. rewrite (Htok0 Eq). rewrite Eq. apply cp_rank0.
+    + intros r Hr. apply Mtodo. lia.
+    + intros a b. apply Mch0. lia.
+  - assert (Hq' : 0 < q < P) by lia. rewrite (Mtk1 Hq').
+    assert (E : spr s q = Do (Recv (q - 1) (-1)) (fun r => bp q (hd 0 (tl r)))) by (rewrite Mtodo by lia; apply cp_rank_pos; exact Nq).
+    assert (Pk : pick (-1) (sch s (q - 1) q) = Some (0%nat, [tokv], [])) by (rewrite (Mch1 Hq'); reflexivity).
+    pose proof (irun_recv1 fsys P c12_local fs_eff c12_creply c12_gives c12_ctok s (Fly (q - 1) q 0) q (q - 1) (-1) _ _ _ _
+                           Hq ltac:(lia) E Pk) as R1.
+    assert (Tk : tok_recv (Fly (q - 1) q 0) (q - 1) q 0 = Held q) by (unfold tok_recv; rewrite !Z.eqb_refl; reflexivity).
+    rewrite Tk in R1.
+    set (s1 := mkst (upd1 (spr s) q (bp q (hd 0 (tl (q - 1 :: [tokv]))))) (upd2 (sch s) (q - 1) q []) (ssh s)) in *.
+    destruct (turn_tail q tokv w ts s1 w1 t Hq Mlen) as (n2 & s' & tk' & R2 & M'); try assumption.
+    + unfold s1. cbn [spr]. apply upd1_same.
+    + intros r Hr. unfold s1. cbn [spr]. rewrite upd1_other by lia. apply Mdone. exact Hr.
+    + intros r Hr. unfold s1. cbn [spr]. rewrite upd1_other by lia. apply Mtodo. lia.
+    + intros r Hr. unfold s1. cbn [spr]. rewrite upd1_other by lia. apply Mout. exact Hr.
+    + intros a b. unfold s1. cbn [sch]. unfold upd2.
+      destruct (Z.eqb_spec a (q - 1)); destruct (Z.eqb_spec b q); cbn [andb]; try reflexivity; apply Mch0; lia.
+    + exists (1 + n2)%nat, s', tk'. split; [eapply irun_app; [exact R1|exact R2]|exact M'].
+Qed.
+
+Lemma skipn_cons_nth {A} (l : list A) : forall n a r d, skipn n l = a :: r -> nth n l d = a /\ skipn (S n) l = r.
+Proof.
+  induction l as [|x l IH]; intros n a r d H.
+  - destruct n; discriminate.
+  - destruct n; cbn [skipn nth] in *; [inversion H; auto|]. apply IH. exact H.
+Qed.
+
+(* all the remaining turns *)
+Lemma mid_turns : forall rest q tokv w ts s tk w' tsr, 0 <= q -> q + len rest = P ->
+  rest = skipn (Z.to_nat q) args -> mid q tokv w ts s tk -> (q = 0 -> tokv = -1) ->
+  g_turns wr w s0 q tokv size rest = Some (w', tsr) ->
+  exists n s' tk' tokv', cirun P n (Good s tk) (Good s' tk') /\ mid P tokv' w' (ts ++ tsr) s' tk'.
+Proof.
+  induction rest as [|a rest IH]; intros q tokv w ts s tk w' tsr Hq Hlen Hrest M Htok0 G.
+  - cbn [g_turns] in G. inversion G; subst. unfold len in Hlen. cbn [length] in Hlen. rewrite Z.add_0_r in Hlen. subst q.
+    exists 0%nat, s, tk, tokv. split; [constructor|]. rewrite app_nil_r. exact M.
+  - cbn [g_turns] in G.
+    assert (Hl : len (a :: rest) = len rest + 1) by (unfold len; cbn [length]; lia).
+    pose proof (len_nonneg rest) as Hnn.
+    symmetry in Hrest. destruct (skipn_cons_nth args (Z.to_nat q) a rest (mkA 0 0 []) Hrest) as [Ea Er].
+    assert (Ha : arg_of args q = a) by exact Ea.
+    destruct (g_turn wr w s0 q tokv size a) as [[w1 t]|] eqn:G1; [|discriminate].
+    destruct (g_turns wr w1 s0 (q + 1) (tok_out t) size rest) as [[w2 ts2]|] eqn:G2; [|discriminate].
+    inversion G; subst w' tsr. clear G.
+    rewrite <- Ha in G1.
+    destruct (mid_step q tokv w ts s tk w1 t ltac:(lia) M Htok0 G1) as (n1 & s1 & tk1 & R1 & M1).
+    destruct (IH (q + 1) (tok_out t) w1 (ts ++ [t]) s1 tk1 w2 ts2 ltac:(lia) ltac:(lia)) as (n2 & s2 & tk2 & tv & R2 & M2).
+    + rewrite <- Er. f_equal. lia.
+    + exact M1.
+    + lia.
+    + exact G2.
+    + exists (n1 + n2)%nat, s2, tk2, tv. split; [eapply irun_app; eauto|]. rewrite <- app_assoc in M2. exact M2.
+Qed.
+
+Lemma lastp_eq r t hf :
+  lastp r t hf = Do (Coll K_BCAST (P - 1) (if r =? P - 1 then [t_errval t] else []))
+                    (fun o => K r (errclass CfgC (if r =? P - 1 then t_errval t else hd 0 o)) (t_ocount t) (t_buf t) (mkH true hf)).
+Proof. reflexivity. Qed.
+
+(* barrier, re-open by rank 0, broadcast of the last rank's error value *)
+Lemma finale tokv w ts s w2 so :
+  mid P tokv w ts s (Held (P - 1)) -> g_fopen w 0 (c_mode wr) = (w2, so, 0) ->
+  exists n s', cirun P n (Good s (Held (P - 1))) (Good s' (Held 0))
+    /\ (forall r, 0 <= r < P -> spr s' r = K r (errclass CfgC (t_errval (tn ts (P - 1)))) (t_ocount (tn ts r)) (t_buf (tn ts r))
+                                              (mkH true ((r =? 0) && is_some so)))
+    /\ (forall r, ~ 0 <= r < P -> spr s' r = out r)
+    /\ (forall a b, sch s' a b = [])
+    /\ fs_w (ssh s') = w2 /\ fs_st (ssh s') 0 = so /\ (forall r, r <> 0 -> fs_st (ssh s') r = None).
+Proof.
+  intros M Go. destruct M as [Mlen Mdone Mtodo Mout Mch1 Mch0 Mw Mhon Mst0 Mst Mtk0 Mtk1 Mtk2].
+  (* 1. the barrier *)
+  assert (A1 : at_coll fsys P s K_BARRIER 0).
+  { intros r Hr. rewrite (Mdone r Hr). unfold fp, fin_prog. eauto. }
+  pose proof (irun_coll1 fsys P c12_local fs_eff c12_creply c12_gives c12_ctok s (Held (P - 1)) K_BARRIER 0 HP eq_refl A1) as R1.
+  change (tok_coll c12_ctok (Held (P - 1)) K_BARRIER 0) with (Held 0) in R1.
+  set (s4 := mkst (advance fsys P c12_creply s K_BARRIER 0) (sch s) (ssh s)) in *.
+  assert (E4 : forall r, 0 <= r < P -> spr s4 r =
+             if r =? 0 then io K_FOPEN [mode_code (c_mode wr)]
+                               (fun x => if negb (r1 x =? 0) then abort else lastp r (tn ts r) (r0 x =? 1))
+             else lastp r (tn ts r) false).
+  { intros r Hr. unfold s4. cbn [spr]. unfold advance.
+    replace ((0 <=? r) && (r <? P)) with true by lia. rewrite (Mdone r Hr). reflexivity. }
+  assert (O4 : forall r, ~ 0 <= r < P -> spr s4 r = out r).
+  { intros r Hr. unfold s4. cbn [spr]. unfold advance.
+    replace ((0 <=? r) && (r <? P)) with false by lia. apply Mout. exact Hr. }
+  (* 2. rank 0 opens the file again *)
+  destruct (ssh s) as [w0 st] eqn:Esh. cbn [fs_w fs_st] in *. subst w0.
+  assert (L : clrun 0 (spr s4 0) (mkFS w st) (lastp 0 (tn ts 0) (is_some so)) (mkFS w2 (set_st st 0 so))).
+  { rewrite E4 by lia. cbn [Z.eqb]. unfold io. eapply lrun_cons; [reflexivity|].
+    rewrite eff_fopen, Go. cbn [fst snd]. unfold r0, r1. cbn [nth negb Z.eqb].
+    replace ((if is_some so then 1 else 0) =? 1) with (is_some so) by (destruct so; reflexivity). apply lrun_nil. }
+  destruct (irun_lrun fsys P c12_local fs_eff c12_creply c12_gives c12_ctok 0 _ _ _ _ L s4 ltac:(lia) eq_refl eq_refl) as [n2 R2].
+  set (s5 := mkst (upd1 (spr s4) 0 (lastp 0 (tn ts 0) (is_some so))) (sch s4) (mkFS w2 (set_st st 0 so))) in *.
+  assert (E5 : forall r, 0 <= r < P -> spr s5 r = lastp r (tn ts r) ((r =? 0) && is_some so)).
+  { intros r Hr. unfold s5. cbn [spr]. destruct (Z.eqb_spec r 0) as [->|Hr0]; cbn [andb].
+    - apply upd1_same.
+    - rewrite upd1_other by exact Hr0. rewrite (E4 r Hr). destruct (Z.eqb_spec r 0); [contradiction|reflexivity]. }
+  (* 3. the broadcast from the last rank *)
+  assert (A5 : at_coll fsys P s5 K_BCAST (P - 1)).
+  { intros r Hr. rewrite (E5 r Hr), lastp_eq. eauto. }
+  pose proof (irun_coll1 fsys P c12_local fs_eff c12_creply c12_gives c12_ctok s5 (Held 0) K_BCAST (P - 1) HP eq_refl A5) as R3.
+  change (tok_coll c12_ctok (Held 0) K_BCAST (P - 1)) with (Held 0) in R3.
+  eexists (1 + n2 + 1)%nat, _. split; [eapply irun_app; [eapply irun_app; [exact R1|exact R2]|exact R3]|].
+  cbn [spr sch ssh fs_w fs_st]. split; [|split; [|split; [|split; [|split]]]].
+  - intros r Hr. unfold advance. replace ((0 <=? r) && (r <? P)) with true by lia.
+    rewrite (E5 r Hr), lastp_eq. unfold c12_creply. cbn [Z.eqb K_BCAST]. unfold contribs.
+    rewrite (E5 (P - 1)) by lia. rewrite lastp_eq. rewrite Z.eqb_refl. cbn [hd].
+    destruct (r =? P - 1) eqn:Er; [|reflexivity].
+    assert (r = P - 1) as -> by lia. reflexivity.
+  - intros r Hr. unfold advance. replace ((0 <=? r) && (r <? P)) with false by lia.
+    unfold s5. cbn [spr]. rewrite upd1_other by lia. apply O4. exact Hr.
+  - intros a b. apply Mch0. lia.
+  - reflexivity.
+  - apply set_st_same.
+  - intros r Hr. unfold s5. cbn [ssh fs_st]. rewrite set_st_other by exact Hr. apply Mst. exact Hr.
+Qed.
+
+Lemma last_tn : forall ts, ts <> [] -> last ts (mkT 0 0 []) = tn ts (len ts - 1).
+Proof.
+  induction ts as [|t ts IH]; intros H; [congruence|].
+  destruct ts as [|t' ts'].
+  - reflexivity.
+  - rewrite last_cons by congruence. rewrite IH by congruence. unfold tn, len. cbn [length].
+    replace (Z.to_nat (Z.of_nat (S (S (length ts'))) - 1)) with (S (Z.to_nat (Z.of_nat (S (length ts')) - 1))) by lia.
+    reflexivity.
+Qed.
+
+Lemma g_turns_length : forall rest w q tokv w' ts, g_turns wr w s0 q tokv size rest = Some (w', ts) -> length ts = length rest.
+Proof.
+  induction rest as [|a rest IH]; intros w q tokv w' ts G; cbn [g_turns] in G.
+  - inversion G. reflexivity.
+  - destruct (g_turn wr w s0 q tokv size a) as [[w1 t]|]; [|discriminate].
+    destruct (g_turns wr w1 s0 (q + 1) (tok_out t) size rest) as [[w2 ts2]|] eqn:G2; [|discriminate].
+    inversion G; subst. cbn [length]. f_equal. eapply IH. exact G2.
+Qed.
+
+(* THE RANK-ORDER SCHEDULE of one collective read / write, inside an arbitrary continuation K and frame `out` *)
+Lemma coll_witness s w ctx g' rs : len args = P ->
+  (forall r, 0 <= r < P -> spr s r = cp r) -> (forall r, ~ 0 <= r < P -> spr s r = out r) ->
+  (forall a b, sch s a b = []) ->
+  fs_w (ssh s) = w -> fopen_honest (w_plan w) -> fs_st (ssh s) 0 = s0 -> (forall r, r <> 0 -> fs_st (ssh s) r = None) ->
+  g_coll wr (mkG w s0 ctx) size args = Some (g', rs) ->
+  exists n s', cirun P n (Good s (Held 0)) (Good s' (Held 0))
+    /\ (forall r, 0 <= r < P ->
+          spr s' r = K r (r_cls (nth (Z.to_nat r) rs (mkR 0 0 []))) (r_ocount (nth (Z.to_nat r) rs (mkR 0 0 [])))
+                         (r_buf (nth (Z.to_nat r) rs (mkR 0 0 []))) (mkH true ((r =? 0) && is_some (g_s0 g'))))
+    /\ (forall r, ~ 0 <= r < P -> spr s' r = out r)
+    /\ (forall a b, sch s' a b = [])
+    /\ fs_w (ssh s') = g_w g' /\ fs_st (ssh s') 0 = g_s0 g' /\ (forall r, r <> 0 -> fs_st (ssh s') r = None)
+    /\ g_ctx g' = ctx /\ len rs = P.
+Proof.
+  intros Hlen Hp Ho Hc Hw Hhon Hs0 Hst G. unfold g_coll in G. cbn [g_w g_s0 g_ctx] in G.
+  destruct (g_turns wr w s0 0 (-1) size args) as [[w1 ts]|] eqn:Gt; [|discriminate].
+  destruct (g_fopen w1 0 (if wr then MAppend else MRead)) as [[w2 so] e] eqn:Go.
+  destruct (e =? 0) eqn:Ee; cbn [negb] in G; [|discriminate]. apply Z.eqb_eq in Ee. subst e.
+  inversion G; subst g' rs. clear G. cbn [g_w g_s0 g_ctx].
+  assert (M0 : mid 0 (-1) w [] s (Held 0)).
+  { constructor.
+    - reflexivity.
+    - intros r Hr. lia.
+    - intros r Hr. apply Hp. lia.
+    - exact Ho.
+    - intros Hx. lia.
+    - intros a b _. apply Hc.
+    - exact Hw.
+    - exact Hhon.
+    - exact Hs0.
+    - exact Hst.
+    - reflexivity.
+    - intros Hx. lia.
+    - intros Hx. lia. }
+  destruct (mid_turns args 0 (-1) w [] s (Held 0) w1 ts ltac:(lia) ltac:(lia) eq_refl M0 ltac:(auto) Gt)
+    as (n1 & s1 & tk1 & tv & R1 & M1).
+  cbn [app] in M1. pose proof (mid_tk2 _ _ _ _ _ _ M1 eq_refl) as Etk. subst tk1.
+  destruct (finale tv w1 ts s1 w2 so M1 Go) as (n2 & s2 & R2 & Fp & Fo & Fc & Fw & Fs0 & Fst).
+  exists (n1 + n2)%nat, s2. split; [eapply irun_app; eauto|].
+  pose proof (g_turns_length _ _ _ _ _ _ Gt) as Lts.
+  assert (Hlts : len ts = P) by (unfold len in *; lia).
+  assert (Hne : ts <> []) by (intros ->; unfold len in Hlts; cbn in Hlts; lia).
+  split; [|split; [exact Fo|split; [exact Fc|split; [exact Fw|split; [exact Fs0|split; [exact Fst|split; [reflexivity|]]]]]]].
+  - intros r Hr. rewrite (Fp r Hr). rewrite last_tn by exact Hne. rewrite Hlts.
+    set (f := fun t : turn => mkR (errclass CfgC (t_errval (tn ts (P - 1)))) (t_ocount t) (t_buf t)).
+    rewrite (nth_indep (map f ts) (mkR 0 0 []) (f dturn)) by (rewrite map_length; unfold len in Hlts; lia).
+    rewrite map_nth. reflexivity.
+  - unfold len. rewrite map_length. exact Hlts.
+Qed.
+
+End Witness.
+
+(* ================================================================== EVERY SCHEDULE of one collective operation *)
+Definition csched (P : Z) := schedule_independent fsys P c12_local fs_eff c12_creply.
+
+Lemma in_range_true r P : 0 <= r < P -> (0 <=? r) && (r <? P) = true.
+Proof. lia. Qed.
+Lemma in_range_false r P : ~ 0 <= r < P -> (0 <=? r) && (r <? P) = false.
+Proof. lia. Qed.
+
+Theorem coll_every_schedule wr size args g g' rs : 0 < len args -> fopen_honest (w_plan (g_w g)) ->
+  g_coll wr g size args = Some (g', rs) ->
+  cfinal (len args) (coll_final (len args) g' rs)
+  /\ exists n, csched (len args) (coll_state wr (len args) size args (g_w g) (g_s0 g)) (coll_final (len args) g' rs) n.
+Proof.
+  intros HP Hhon G. set (P := len args) in *.
+  split.
+  { intros r Hr. unfold coll_final. cbn [spr]. rewrite in_range_true by exact Hr. unfold k_ret. eauto. }
+  destruct g as [w s0 ctx]. cbn [g_w g_s0] in *.
+  destruct (coll_witness wr P size args (fun _ => k_ret) s0 (fun _ => Ret []) HP
+                         (coll_state wr P size args w s0) w ctx g' rs eq_refl) as (n & s' & R & Fp & Fo & Fc & Fw & Fs0 & Fst & _ & _).
+  - intros r Hr. unfold coll_state. cbn [spr]. rewrite in_range_true by exact Hr. reflexivity.
+  - intros r Hr. unfold coll_state. cbn [spr]. rewrite in_range_false by exact Hr. reflexivity.
+  - reflexivity.
+  - reflexivity.
+  - exact Hhon.
+  - reflexivity.
+  - intros r Hr. unfold coll_state. cbn [ssh fs_st]. destruct (Z.eqb_spec r 0); [contradiction|reflexivity].
+  - exact G.
+  - exists n.
+    assert (E : s' = coll_final P g' rs).
+    { destruct s' as [pr' ch' [w' st']]. cbn [spr sch ssh fs_w fs_st] in *. unfold coll_final. f_equal.
+      - extensionality r. destruct (Z.le_gt_cases 0 r); [destruct (Z.lt_ge_cases r P)|].
+        + rewrite in_range_true by lia. apply Fp. lia.
+        + rewrite in_range_false by lia. apply Fo. lia.
+        + rewrite in_range_false by lia. apply Fo. lia.
+      - extensionality a. extensionality b. apply Fc.
+      - f_equal; [exact Fw|]. extensionality q. destruct (Z.eqb_spec q 0) as [->|Hq]; [exact Fs0|apply Fst; exact Hq]. }
+    rewrite E in R.
+    eapply one_schedule_independent; [exact R|].
+    intros r Hr. unfold coll_final. cbn [spr]. rewrite in_range_true by exact Hr. unfold k_ret. eauto.
+Qed.
+
+(* fault-free collective write: in EVERY schedule the file ends up as the old content followed by the blocks in rank
+   order, every rank returns SUCCESS and ocount = count *)
+Corollary coll_write_every_schedule g c fl op lg s size args :
+  wst (g_w g) c fl op lg -> g_s0 g = Some s -> at_end s c -> args <> [] -> Forall (wf_arg size) args ->
+  forall m s', crun (len args) m (coll_state true (len args) size args (g_w g) (g_s0 g)) s' ->
+    (cfinal (len args) s' \/ exists l s'', cstep (len args) s' l s'')
+    /\ (cfinal (len args) s' ->
+          content (fs_w (ssh s')) = c ++ concat (map a_data args)
+          /\ forall r, 0 <= r < len args ->
+               spr s' r = k_ret (SUCCESS CfgC) (a_count (arg_of args r)) [] (mkH true (r =? 0))).
+Proof.
+  intros Hw Hs He Hne Hwf m s' Hrun.
+  destruct (coll_write_nf g c fl op lg s size args Hw Hs He Hne Hwf) as (g' & G & Hw' & Hs' & _).
+  assert (HP : 0 < len args) by (destruct args; [congruence|unfold len; cbn [length]; lia]).
+  assert (Hhon : fopen_honest (w_plan (g_w g))) by (intros q k e s0 E; rewrite (wst_plan _ _ _ _ _ Hw) in E; discriminate).
+  destruct (coll_every_schedule true size args g g' _ HP Hhon G) as (_ & n & Hall).
+  destruct (Hall m s' Hrun) as (_ & _ & Hfin & Hns & _).
+  split; [exact Hns|]. intros Hf. destruct (Hfin Hf) as [-> _].
+  split.
+  - unfold coll_final. cbn [ssh fs_w]. apply (wst_content _ _ _ _ _ Hw').
+  - intros r Hr. unfold coll_final. cbn [spr]. rewrite in_range_true by exact Hr.
+    rewrite Hs'. cbn [is_some]. rewrite andb_true_r.
+    change (mkR 0 0 []) with ((fun a => mkR (SUCCESS CfgC) (a_count a) []) (mkA 0 0 [])). rewrite map_nth. reflexivity.
+Qed.
+
 (* ------------------------------------------------------------------ schedules of open / close / explicit-offset calls *)
 Lemma tok_coll_bcast tk root : tok_coll c12_ctok tk K_BCAST root = tk.
 Proof. destruct tk; reflexivity. Qed.
@@ -940,7 +959,8 @@ Lemma open_witness P s am (Kk : Z -> Z -> hnd -> prog) w st : 0 < P ->
   (forall r, 0 <= r < P -> spr s r = open_prog CfgC r am (Kk r)) -> ssh s = mkFS w st ->
   exists n s', cirun P n (Good s (Held 0)) (Good s' (Held 0))
     /\ (forall r, 0 <= r < P ->
-          spr s' r = let cls := errclass CfgC (snd (g_fopen w 0 (mode_of_amode am))) in
+          spr s' r = let cls := errclass CfgC (open_judge (is_some (snd (fst (g_fopen w 0 (mode_of_amode am)))))
+                                                          (snd (g_fopen w 0 (mode_of_amode am)))) in
                      if cls =? SUCCESS CfgC
                      then Kk r cls (mkH true ((r =? 0) && is_some (snd (fst (g_fopen w 0 (mode_of_amode am))))))
                      else Kk r cls h_none)
@@ -953,13 +973,14 @@ Proof.
   set (fin := fun (r retval : Z) (hasfile : bool) =>
                 bcast true 0 r retval (fun rv => let cls := errclass CfgC rv in
                    if cls =? SUCCESS CfgC then Kk r cls (mkH true hasfile) else Kk r cls h_none)).
-  assert (L : clrun 0 (spr s 0) (mkFS w st) (fin 0 e (is_some so)) (mkFS w1 (set_st st 0 so))).
+  set (ej := open_judge (is_some so) e).
+  assert (L : clrun 0 (spr s 0) (mkFS w st) (fin 0 ej (is_some so)) (mkFS w1 (set_st st 0 so))).
   { rewrite (Hp 0) by lia. unfold open_prog. cbn [Z.eqb is_mpi]. unfold io. eapply lrun_cons; [reflexivity|].
     rewrite eff_fopen, Eo. cbn [fst snd]. unfold r0, r1. cbn [nth].
     replace ((if is_some so then 1 else 0) =? 1) with (is_some so) by (destruct so; reflexivity). apply lrun_nil. }
   destruct (irun_lrun fsys P c12_local fs_eff c12_creply c12_gives c12_ctok 0 _ _ _ _ L s ltac:(lia) eq_refl Hsh) as [n1 R1].
-  set (s1 := mkst (upd1 (spr s) 0 (fin 0 e (is_some so))) (sch s) (mkFS w1 (set_st st 0 so))) in *.
-  destruct (bcast_step P s1 (Held 0) 0 (fun r => if r =? 0 then e else 0)
+  set (s1 := mkst (upd1 (spr s) 0 (fin 0 ej (is_some so))) (sch s) (mkFS w1 (set_st st 0 so))) in *.
+  destruct (bcast_step P s1 (Held 0) 0 (fun r => if r =? 0 then ej else 0)
               (fun r rv => let cls := errclass CfgC rv in
                  if cls =? SUCCESS CfgC then Kk r cls (mkH true ((r =? 0) && is_some so)) else Kk r cls h_none) HP ltac:(lia))
     as (s2 & R2 & Fp & Fo & Fc & Fs).
@@ -1133,7 +1154,7 @@ Proof.
   destruct (ssh s) as [wv st] eqn:Esh. cbn [fs_w fs_st] in Sw, Sst0, Sst. subst wv.
   destruct o as [am| |wr size args|wr size a]; cbn [g_scen nproc] in G.
   - (* ---- open *)
-    unfold g_open in G.
+    unfold g_open, g_open_with in G.
     set (w0 := add_ledger (g_w g) P) in *.
     destruct (erase_fopen w0 0 (mode_of_amode am)) as [Ee Pe]. change (erase w0) with (erase (g_w g)) in Ee.
     destruct (g_fopen w0 0 (mode_of_amode am)) as [[w1 so] e] eqn:Eo. cbn [fst snd] in Ee, Pe.
@@ -1143,7 +1164,12 @@ Proof.
     { exact Esh. }
     rewrite Ee in Fp, Fs. cbn [fst snd] in Fp, Fs.
     assert (Hplan0 : plan_ok (w_plan w0)) by exact Splan.
-    destruct (acct_fopen _ _ _ _ _ _ Hplan0 Eo) as (_ & _ & Z0 & _).
+    destruct (acct_fopen _ _ _ _ _ _ Hplan0 Eo) as (_ & _ & Z0 & Z1).
+    (* under plan_ok a stream comes with errno 0: the judgement of the repaired line is errno itself *)
+    assert (Hj : open_judge (match so with Some _ => true | None => false end) e = e).
+    { destruct so; [|reflexivity]. cbn. destruct (Z.eq_dec e 0) as [E|E]; [auto|]. destruct (Z1 E) as [H _]. discriminate. }
+    assert (Hj2 : open_judge (is_some so) e = e) by exact Hj.
+    rewrite Hj in G. rewrite Hj2 in Fp. clear Z1.
     destruct (errclass CfgC e =? SUCCESS CfgC) eqn:Ec.
     + assert (E0 : e = 0) by (apply (errclass_success_iff CfgC); apply Z.eqb_eq; exact Ec).
       destruct (Z0 E0) as (Hso & _ & _).
@@ -1164,7 +1190,7 @@ Proof.
       * intros r Hr. cbn [g_ctx negb]. unfold bcast_all. rewrite !map_map. rewrite nth_ranks by exact Hr. reflexivity.
     + assert (E0 : e <> 0).
       { intros ->. rewrite (proj2 (errclass_success_iff CfgC 0) eq_refl), Z.eqb_refl in Ec. discriminate. }
-      assert (so = None) as -> by (eapply fopen_err_none; eauto).
+      assert (so = None) as -> by (eapply fopen_err_none; [apply plan_ok_honest; exact Hplan0|exact Eo|exact E0]).
       eapply (GLUE _ _ (fun _ => h_none) (fun r => accs r ++ enc CfgC (errclass CfgC e) 0 true []) s1 n1 R1); [| |exact G].
       * constructor; cbn [g_w g_s0 g_ctx h_ctx h_file h_none].
         -- intros r Hr. rewrite (Fp r Hr). reflexivity.
@@ -1243,6 +1269,7 @@ Proof.
       { exact Sout. }
       { exact Sch. }
       { rewrite Esh. reflexivity. }
+      { apply plan_ok_honest. exact Splan. }
       { rewrite Esh. exact Sst0. }
       { rewrite Esh. exact Sst. }
       { exact Ee. }
@@ -1600,7 +1627,7 @@ Lemma mid_step_abort q tokv w ts s tk : 0 <= q < P -> midA q tokv w ts s tk -> (
   g_turn wr w s0 q tokv size (arg_of args q) = None ->
   exists n s' tk', cirun P n (Good s tk) (Good s' tk') /\ aborted1 q ts s'.
 Proof.
-  intros Hq M Htok0 Ht Hp G. destruct M as [Mlen Mdone Mtodo Mout Mch1 Mch0 Mw Mst0 Mst Mtk0 Mtk1 Mtk2].
+  intros Hq M Htok0 Ht Hp G. destruct M as [Mlen Mdone Mtodo Mout Mch1 Mch0 Mw Mhon Mst0 Mst Mtk0 Mtk1 Mtk2].
   destruct (Z.eq_dec q 0) as [Eq|Nq].
   - rewrite (Mtk0 Eq). replace (Held 0) with (Held q) by (f_equal; exact Eq).
     destruct (turn_tail_abort q tokv w ts s Hq) as (n & s' & R & A); try assumption.
@@ -1662,7 +1689,7 @@ Lemma finale_abort tokv w ts s w2 so e :
   midA P tokv w ts s (Held (P - 1)) -> g_fopen w 0 (c_mode wr) = (w2, so, e) -> e <> 0 ->
   exists n s', cirun P n (Good s (Held (P - 1))) (Good s' (Held 0)) /\ aborted2 ts s'.
 Proof.
-  intros M Go He. destruct M as [Mlen Mdone Mtodo Mout Mch1 Mch0 Mw Mst0 Mst Mtk0 Mtk1 Mtk2].
+  intros M Go He. destruct M as [Mlen Mdone Mtodo Mout Mch1 Mch0 Mw Mhon Mst0 Mst Mtk0 Mtk1 Mtk2].
   assert (A1 : at_coll fsys P s K_BARRIER 0).
   { intros r Hr. rewrite (Mdone r Hr). unfold fp, fin_prog. eauto. }
   pose proof (irun_coll1 fsys P c12_local fs_eff c12_creply c12_gives c12_ctok s (Held (P - 1)) K_BARRIER 0 HP eq_refl A1) as R1.
@@ -1705,6 +1732,7 @@ Proof.
     - intros Hx. lia.
     - intros a b _. apply Hc.
     - exact Hw.
+    - apply plan_ok_honest. exact Hpl.
     - exact Hst0.
     - exact Hst.
     - reflexivity.
